@@ -31,6 +31,15 @@ func NewVector(dim int, elementType Symbol, initElement Object, elements List, a
 	}
 }
 
+// LoadForm returns a form that can be evaluated to create the object.
+func (obj *Vector) LoadForm() Object {
+	form := obj.Array.LoadForm()
+	if 0 <= obj.FillPtr {
+		form = append(form.(List), Symbol(":fill-pointer"), Fixnum(obj.FillPtr))
+	}
+	return form
+}
+
 // String representation of the Object.
 func (obj *Vector) String() string {
 	return string(obj.Append([]byte{}))
